@@ -100,12 +100,11 @@ impl<T: Hash + Eq> IdSet<T> {
         use std::collections::hash_map::Entry;
         match self.map.entry(ptr) {
             Entry::Occupied(entry) => {
-                if value_ref == entry.key().0 {
-                    *entry.get()
-                } else {
-                    self.current_buf.pop();
-                    *entry.get()
-                }
+                // the value just pushed is a duplicate of an older element: drop it again.
+                // (Comparing addresses to tell the two apart is wrong for zero-sized T,
+                // whose elements all share one address.)
+                self.current_buf.pop();
+                *entry.get()
             }
             Entry::Vacant(entry) => {
                 entry.insert(new_id);
